@@ -383,11 +383,19 @@ impl IoLoop {
                     self.inner.write_to_stream(stream)?;
                 }
                 if event.readiness().is_readable() {
-                    self.inner.read_from_stream(
+                    let result = self.inner.read_from_stream(
                         stream,
                         &mut self.frame_buffer,
                         |inner, frame| state.process(inner, frame),
-                    )?;
+                    );
+                    match result {
+                        // Whatever follows open-ok in the same read is not part of the
+                        // handshake. The frame buffer keeps a frame its handler refused;
+                        // run_connection picks it up from there.
+                        Err(Error::FrameUnexpected)
+                            if matches!(state, HandshakeState::Done(_, _)) => {}
+                        other => other?,
+                    }
                 }
             }
             HEARTBEAT => self.inner.process_heartbeat_timers()?,
@@ -421,6 +429,14 @@ impl IoLoop {
         ch0_slot: Channel0Slot,
     ) -> Result<()> {
         let mut state = ConnectionState::Steady(ch0_slot);
+        // The handshake may have left frames that arrived right behind open-ok in the
+        // frame buffer, and our edge-triggered poll will not tell us again about what is
+        // already there (them, more data, or the end of the stream): look before waiting.
+        self.handle_steady_event(
+            stream,
+            &mut state,
+            Event::new(Ready::readable(), STREAM),
+        )?;
         self.run_io_loop(
             stream,
             &mut state,
